@@ -1,4 +1,5 @@
-/* C06: group-level constant-time primitives.  Secret and independent between the two runs: all
+/* C06: group-level constant-time primitives (only functions the project documents or uses as constant-time:
+ * the two cmovs here, ge_set_gej, gej_add_ge, gej_double below; audit 2 #27).  Secret and independent between the two runs: all
  * coordinates, the infinity flag of the Jacobian accumulator, the cmov flag.  The only assumption is
  * the representation invariant infinity in {0,1}. */
 #include "pre.h"
@@ -19,17 +20,6 @@ void h_ct_group_cmov(void) {
     CT2("C06 ge_storage_cmov: trace independent of flag and operands", secp256k1_ge_storage_cmov(&x.sr, &x.sa, x.flag), secp256k1_ge_storage_cmov(&y.sr, &y.sa, y.flag));
     if (s1.flag != s2.flag) REACH("ge_storage_cmov with different flags");
     CT2("C06 gej_cmov: trace independent of flag and operands", secp256k1_gej_cmov(&x.r, &x.a, x.flag), secp256k1_gej_cmov(&y.r, &y.a, y.flag));
-    x = s1; y = s2;
-    CT2("C06 ge_to_storage: trace independent of operand", secp256k1_ge_to_storage(&x.sr, &x.b), secp256k1_ge_to_storage(&y.sr, &y.b));
-    CT2("C06 ge_from_storage: trace independent of operand", secp256k1_ge_from_storage(&x.g, &x.sa), secp256k1_ge_from_storage(&y.g, &y.sa));
-    x = s1; y = s2;
-    CT2("C06 gej_set_ge: trace independent of operand", secp256k1_gej_set_ge(&x.r, &x.b), secp256k1_gej_set_ge(&y.r, &y.b));
-    CT2("C06 ge_neg: trace independent of operand", secp256k1_ge_neg(&x.g, &x.b), secp256k1_ge_neg(&y.g, &y.b));
-    CT2("C06 gej_neg: trace independent of operand", secp256k1_gej_neg(&x.r, &x.a), secp256k1_gej_neg(&y.r, &y.a));
-    x = s1; y = s2;
-    CT2("C06 gej_rescale: trace independent of operands", secp256k1_gej_rescale(&x.a, &x.s), secp256k1_gej_rescale(&y.a, &y.s));
-    CT2("C06 ge_mul_lambda: trace independent of operand", secp256k1_ge_mul_lambda(&x.g, &x.b), secp256k1_ge_mul_lambda(&y.g, &y.b));
-    CT2("C06 ge_clear/gej_clear: trace independent of operand", (secp256k1_ge_clear(&x.g), secp256k1_gej_clear(&x.r)), (secp256k1_ge_clear(&y.g), secp256k1_gej_clear(&y.r)));
 }
 
 void h_ct_ge_set_gej(void) {
